@@ -159,6 +159,36 @@ def resetrace_work(job):
     return rec
 
 
+def reset_invoke_work(job):
+    """reset() while an invoked session is running: the session of the life that ends must be stopped by the time reset() returns (a freshly
+    created interpreter has no children from an earlier life)."""
+    flavour, seed, engine, outdir = job
+    from vf.checks import c11
+    rng = random.Random(seed)
+    pr = {'kids': ['c1'], 'Tc': rng.choice([2, 3, 5]), 'T': 7, 'NC': 60, 'NP': 3, 'Dc': {'c1': None}, 'Dp': None, 'af': False, 'flash': False, 'revisit': 0, 'Da': 5,
+          'leave_on_done': False, 'fwd': 0, 'fwdms': 1, 'to': 'c1', 'par': False, 'Db': None, 'final_on_leave': False, 'broken': None, 'exitsend': False}
+    xml = c11.parent_xml(pr)
+    if seed % 2: xml = xml.replace('<invoke type="scxml" id="c1"', '<invoke type="scxml"', 1)      # generated invoke id: the second life's invocation does not replace the first
+    f = os.path.join(outdir, 'ri%d.scxml' % seed); open(f, 'w').write(xml)
+    r = thr.run_with_stacks(flavour, 'timers', f, timeout=60, seed=seed, engine=engine, quiet=250, gquiet=1, maxms=8000,
+                            script='inv.start.done:set:started,inv.start.done:sleep:%d' % rng.choice([0, 2000, 15000]), stopwhen='started', atstop='reset')
+    rec = {'job': list(job[:3]), 'bad': [], 'xml': xml}
+    if r['timeout']:
+        rec['bad'].append(('reset-with-invocation:hang', {'stacks': [s[-4000:] for s in r.get('stacks', [])]})); return rec
+    if r['rc'] != 0: rec['bad'].append(('reset-with-invocation:crash:' + (common.sanitizer_summary(r['err']) or 'rc=%s' % r['rc'])[:100], {'stderr': r['err'][-3000:]})); return rec
+    recs = sorted(thr.records(r['out']), key=lambda x: x[0])
+    rend = [x for x in recs if x[3] == 'RESET' and x[4] == 'end']
+    if not rend: rec['reached'] = False; return rec
+    rec['reached'] = True
+    parent_sid = next((x[4].split(' ')[0] for x in recs if x[3] in ('MB', 'NB')), None)
+    before = set(x[4].split(' ')[0] for x in recs if x[0] < rend[0][0] and x[3] in ('MB', 'E', 'NB') and x[4].split(' ')[0] != parent_sid)
+    late = [x for x in recs if x[0] > rend[0][0] and x[3] in ('MB', 'E', 'NB', 'CB') and x[4].split(' ')[0] in before]
+    rec['children_before_reset'] = len(before)
+    if late:
+        rec['bad'].append(('reset:invoked-session-of-the-previous-life-still-running', {'child_sessions_before_reset': sorted(before), 'records_after_reset_returned': len(late), 'first': list(late[0])}))
+    return rec
+
+
 def churn_work(job):
     flavour, seed, count, script, outdir = job
     xml = CANCEL_CHART % {'dm': 'lua', 'delayed': '<onentry><send event="later" delay="2s"/></onentry>' if seed % 2 else ''}
@@ -301,6 +331,14 @@ def main(tier, replay):
         if not rec['bad']: chk.nontrivial('resetrace:%s' % rec['job'])
         for key, det in rec['bad']: chk.report(key, {'job': rec['job'], 'detail': det}, 'reset race %s: %s' % (rec['job'], key))
     chk.add('resets_racing_with_receive', rr)
+    # (3d) reset() while an invoked session runs
+    ri = 0
+    for rec in common.pmap(reset_invoke_work, [(('tsan', 'asan')[i % 2], base + 750000 + i, ('large', 'fast')[(i // 2) % 2], outdir) for i in range(8 if q else 200)], workers=min(8, common.NPROC)):
+        chk.count()
+        if rec.get('reached') and rec.get('children_before_reset'): ri += 1
+        if not rec['bad']: chk.nontrivial('resetinvoke:%s' % rec['job'])
+        for key, det in rec['bad']: chk.report(key, {'job': rec['job'], 'xml': rec['xml'], 'detail': det}, 'reset with invocation %s: %s' % (rec['job'], key))
+    chk.add('resets_with_running_invocation', ri)
     # (4) reset equivalence
     n4 = 200 if q else 6000; cmp_ = 0
     for out in common.pmap(reset_work, [(dbin, list(range(base + 500000 + i, base + 500000 + min(i + 20, n4)))) for i in range(0, n4, 20)]):
